@@ -342,18 +342,29 @@ func (c *Ctx) c02Signer(ks string) {
 		return
 	}
 	n := 0
-	for _, f := range c.P.Funcs {
-		if f.Pkg == nil || c.P.Rel(f.Pkg.Pkg.Path()) != c.P.Rel(c.V.CoreType.Obj().Pkg().Path()) {
+	for _, f0 := range c.P.Funcs {
+		if f0.Pkg == nil || c.P.Rel(f0.Pkg.Pkg.Path()) != c.P.Rel(c.V.CoreType.Obj().Pkg().Path()) {
 			continue
 		}
-		for _, ci := range Calls(f) {
+		for _, ci := range Calls(f0) {
 			d := c.P.Describe(ci)
 			if d.Name != fnSignBlinded {
 				continue
 			}
 			n++
+			// the signer is the function of the reference tree the call belongs to: a helper that is new on this
+			// tree is a piece of its (single) caller; its parameters are read as that caller's arguments
+			f := f0
+			for i := 0; i < 4 && f.Parent() == nil && c.P.IsNewFunc(f); i++ {
+				sites := c.callersOf(f)
+				if len(sites) != 1 {
+					break
+				}
+				f = EnclosingTop(sites[0].Parent())
+			}
+			c.OpFuncs(f) // scope for the helper call sites
 			fk := c.P.FuncKey(f)
-			o := c.P.OriginsOf(f)
+			o := c.CtxOf(ci)
 			if len(f.Params) < 2 {
 				R.Undecided("R5", fk, "signer shape", c.P.InstrPos(ci), "signer wiring", "signer has no message-list parameter")
 				continue
@@ -388,14 +399,15 @@ func (c *Ctx) c02Signer(ks string) {
 				}},
 			}
 			for _, g := range guards {
-				ok, why := o.Requires(ci, &Cond{Name: g.name, Match: g.m})
+				ok, why := c.RequireAt(ci, &Cond{Name: g.name, PerIteration: true, Match: g.m})
 				R.Check("R5", fk, "sign <= "+g.name, c.P.InstrPos(ci), ok, "every signature is preceded, for that very message, by ["+g.name+"]", why)
 			}
 			// emitted signature fields
 			var ret *Ex
-			for _, r := range o.SuccessReturns() {
+			fo := c.P.OriginsOf(f)
+			for _, r := range fo.SuccessReturns() {
 				if len(r.Results) > 0 {
-					ret = o.Of(r.Results[0])
+					ret = fo.Of(r.Results[0])
 				}
 			}
 			okRet := false
